@@ -145,7 +145,9 @@ def _run_cloud(rec, dreye, name, P, family, tier, seed, uniform=True):
         rec.outcome("instance/%s" % ("ok" if bad is None else "bad"))
         if bad:
             _v(rec, bad[0], dict(sig, what=bad[1][:40]), bad[1], case, observed=np.asarray(X)[:3])
-    # ---- uniformity (default engine)
+    # ---- uniformity, exact mechanism layer (scripted randomness)
+    _mechanism(rec, dreye, name, P, family)
+    # ---- uniformity, statistical layer (default engine)
     if not uniform:
         return
     nU = 10000 if tier == "quick" else 100000
@@ -207,6 +209,72 @@ def _run_cloud(rec, dreye, name, P, family, tier, seed, uniform=True):
             _v(rec, "e", dict(sig, what="cell-frequency"), "a half-space cell receives samples out of proportion to its volume (|freq - volume fraction| = %.4f > %.4f)" % (worst, bound), case,
                observed=dict(worst=worst), expected=dict(bound=bound, cells=[(a.tolist(), th, fr) for (a, th), fr in zip(cells, fracs)][:4]),
                script="import numpy as np, dreye\nX = dreye.sample_in_hull(np.array(%r), %d, seed=%d)\nprint(X.mean(0))\n" % (P.tolist(), nU, sd))
+
+
+def _mechanism(rec, dreye, name, P, family):
+    """Exact layer for 'uniform': own the randomness with a scripted numpy Generator.  The generator answers every
+    simplex index in turn (recording the probability vector it is handed) and hands out chosen barycentric weights
+    (one-hot = the simplex's vertices, then the centroid).  Uniformity then follows from three exact facts:
+    (1) the recorded probabilities are the simplices' volume fractions, (2) the simplices lie in the hull and their
+    volumes add up to the hull's volume (=> they tile it), (3) a sample is the barycentric image of its weights
+    (uniform Dirichlet(1,..,1) weights on a simplex are uniform on it).  If the implementation consumes randomness
+    differently the layer reports 'not observable' and asserts nothing."""
+    d = P.shape[1]
+    log = dict(p=None, nchoice=0, ndir=0, alpha=None)
+
+    class Scripted(np.random.Generator):
+        def choice(self, a, size=None, replace=True, p=None, axis=0, shuffle=True):
+            log["nchoice"] += 1
+            log["p"] = None if p is None else np.array(p, dtype=float)
+            log["S"] = int(a)
+            return np.arange(int(size)) // (d + 2) % int(a)
+
+        def dirichlet(self, alpha, size=None):
+            log["ndir"] += 1
+            log["alpha"] = np.array(alpha, dtype=float)
+            n_ = int(size if np.ndim(size) == 0 else size[0])
+            W = np.vstack([np.eye(d + 1), np.full((1, d + 1), 1.0 / (d + 1))])
+            return W[np.arange(n_) % (d + 2)]
+
+    sig = dict(family=family, api="dreye.sample_in_hull", engine="None", l1="none")
+    case = dict(cloud=name, mechanism=True)
+    rec.path()
+    rec.trans(2)
+    try:
+        g0 = Scripted(np.random.PCG64(0))
+        dreye.sample_in_hull(P, d + 2, seed=g0)  # first call only to learn the number of simplices
+        S = log.get("S")
+        if not S or log["nchoice"] != 1 or log["ndir"] != 1:
+            rec.count("mechanism-not-observable")
+            return
+        g = Scripted(np.random.PCG64(0))
+        X = np.asarray(dreye.sample_in_hull(P, S * (d + 2), seed=g), dtype=float)
+    except Exception:  # noqa - not observable this way; the statistical layer still decides
+        rec.count("mechanism-not-observable")
+        return
+    if X.shape != (S * (d + 2), d) or log["p"] is None or len(log["p"]) != S:
+        rec.count("mechanism-not-observable")
+        return
+    rec.distinct((name, "mechanism"))
+    verts = X.reshape(S, d + 2, d)[:, : d + 1, :]
+    cents = X.reshape(S, d + 2, d)[:, d + 1, :]
+    vols = np.abs(np.linalg.det(verts[:, 1:, :] - verts[:, :1, :])) / math.factorial(d)
+    hv = O.hull_volume(P)
+    scale = max(1.0, float(np.max(np.abs(P))))
+    bad = None
+    if not np.allclose(log["alpha"], 1.0):
+        bad = "barycentric weights are not drawn from Dirichlet(1, ..., 1)"
+    elif np.max(np.abs(cents - verts.mean(1))) > 1e-12 * scale:
+        bad = "a sample is not the barycentric image of its weights"
+    elif np.min(O.hull_margin(P, verts.reshape(-1, d))) < -1e-9 * scale:
+        bad = "a sampling simplex sticks out of the hull"
+    elif abs(vols.sum() - hv) > 1e-9 * max(1.0, hv):
+        bad = "the sampling simplices do not tile the hull (their volumes add up to %.10g, the hull has %.10g)" % (vols.sum(), hv)
+    elif np.max(np.abs(log["p"] - vols / vols.sum())) > 1e-12:
+        bad = "simplices are not chosen with probability proportional to their volume (max deviation %.3g)" % np.max(np.abs(log["p"] - vols / vols.sum()))
+    rec.outcome("mechanism/%s" % ("exact" if bad is None else "bad"))
+    if bad:
+        _v(rec, "e", dict(sig, what="mechanism: " + bad[:50]), bad, case, observed=dict(p=log["p"][:6], volumes=vols[:6]), expected=dict(hull_volume=hv))
 
 
 def run_unit(unit, rec):
